@@ -393,7 +393,7 @@ pub fn op_strategy(p: &Profile) -> BoxedStrategy<Op> {
     );
     add(p.update_index, prop_oneof![5 => Just(0u8), 1 => 1u8..4].prop_map(|by| Op::UpdateIndex { by }).boxed());
     add(p.check_slashing, (0u8..6).prop_map(|u| Op::CheckSlashing { u }).boxed());
-    add(p.migrate, prop_oneof![3 => Just(0u8), 1 => 1u8..5].prop_map(|c| Op::Migrate { c }).boxed());
+    add(p.migrate, prop_oneof![2 => Just(0u8), 2 => Just(1u8), 1 => 2u8..5].prop_map(|c| Op::Migrate { c }).boxed());
     add(p.advance, clock_strategy().prop_map(|clock| Op::Advance { clock }).boxed());
     add(
         p.slash,
@@ -527,6 +527,10 @@ pub fn release_scenario_strategy(cfgs: BoxedStrategy<Cfg>) -> BoxedStrategy<Hist
                 }
             }
             ops.push(Op::Advance { clock: fin });
+            // a third of the scenarios: the hub is migrated (to the same code) while matured coins wait unreleased
+            if withdrawers.len() % 3 == 0 {
+                ops.push(Op::Migrate { c: 0 });
+            }
             for u in &withdrawers {
                 ops.push(Op::Withdraw { u: *u });
             }
@@ -572,6 +576,9 @@ pub fn many_batches_scenario_strategy(cfgs: BoxedStrategy<Cfg>) -> BoxedStrategy
                 }
                 ops.push(Op::Advance { clock: Clock::Epoch(eoff) });
                 if let Some(u) = withdraw {
+                    if u == 5 {
+                        ops.push(Op::Migrate { c: 0 });
+                    }
                     ops.push(Op::Withdraw { u });
                 }
                 if let Some((v, permille, unbonding)) = slash {
@@ -631,6 +638,9 @@ pub fn zero_arrival_scenario_strategy(cfgs: BoxedStrategy<Cfg>) -> BoxedStrategy
                 ops.push(Op::Slash { v: 255, permille: 500, unbonding: true });
             }
             ops.push(Op::Advance { clock: Clock::Unbond(off) });
+            if w1 == 2 {
+                ops.push(Op::Migrate { c: 0 });
+            }
             ops.push(Op::Withdraw { u: w1 });
             if donate {
                 ops.push(Op::Donate { to: 0, coin: 0, amt: Amt { class: 1, mant: 3 } });
